@@ -32,6 +32,9 @@ CASINGS = [("camel", Casing.CAMEL), ("snake", Casing.SNAKE)]
 GOOD_NAMES = ["foo_bar", "http_status", "ipv4_address", "a", "value2", "camel_case_name", "class_", "f0", "my_field_name",
               "x1", "data", "foo", "bar_baz", "from_", "id", "created_at", "int32_value", "ab_cd_ef"]
 BAD_NAMES = ["address_line_1", "x_y_z", "a_b", "line_2_text"]
+# sibling fields of ONE message whose names differ only in where the underscores are (protoc accepts them: their JSON
+# names fileName / filename differ); each name alone maps back to itself
+NEAR_PAIRS = [("file_name", "filename"), ("user_id", "userid"), ("a_bc", "ab_c"), ("time_stamp", "timestamp"), ("abc_d", "a_bcd")]
 
 
 def hexs(b):
@@ -77,6 +80,11 @@ def rename_fields(rng, schema, bad_prob=0.02):
                 cand = f.name
             used.add(cand)
             f.name = cand
+        if len(m.fields) >= 2 and rng.random() < 0.3:
+            pair = rng.choice(NEAR_PAIRS)
+            if not (set(pair) & used):
+                i, j = rng.sample(range(len(m.fields)), 2)
+                m.fields[i].name, m.fields[j].name = pair
     return schema
 
 
